@@ -534,11 +534,17 @@ namespace bloch::update {
             std::istringstream in(content);
             std::string line;
             while (std::getline(in, line)) {
-                if (line.find(assetName) == std::string::npos)
-                    continue;
+                // sha256sum format: "<hash>  <name>" (binary mode: "<hash> *<name>"). The
+                // file-name field must be exactly the asset, not merely contain it
+                // (e.g. "<asset>.sig" or another platform's similarly named archive).
                 std::istringstream parts(line);
                 std::string hash;
-                if (parts >> hash)
+                std::string name;
+                if (!(parts >> hash >> name))
+                    continue;
+                if (!name.empty() && name.front() == '*')
+                    name.erase(name.begin());
+                if (name == assetName)
                     return hash;
             }
             return std::nullopt;
